@@ -566,4 +566,127 @@ theorem concurrent_pull_during_verification_installs_missing_layer :
     (pull2 cfgF toyHash .during dA 0 regX scA 1 regX Scripts.honest st0).2.1 = .err .digestMismatch ∧
     (pull2 cfgF toyHash .during dA 0 regX scA 1 regX Scripts.honest st0).2.2.manifests = [] := by decide
 
+/-! ## Histories: any number of pulls, of any names, against a registry that may re-publish in between -/
+
+/-- **A successful pull keeps every OTHER name intact too** (current tree = `verifyEarly`): it installs the served
+    manifest under the pulled name with all layers verified (clause 1) and its pruning removes no blob that a readable
+    manifest of any name still refers to — so `NameInv` survives success as well as failure
+    (`pull_fail_preserves_names`), which is the induction step for histories. -/
+theorem pull_success_preserves_names (cfg : Cfg) (hash : Bytes → Digest) (name : Name) (reg : Registry)
+    (sc : Scripts) (st st' : Store) (log : Log) (hearly : cfg.verifyEarly = true)
+    (hb : BlobInv hash st) (hn : NameInv hash st) (h : pull cfg hash name reg sc st = (.ok (), st', log)) :
+    NameInv hash st' := by
+  intro n m hlook l hl
+  have hman := pull_manifests h
+  simp only [if_true] at hman
+  by_cases e : n = name
+  · subst e
+    rw [hman, lookupM_insertM] at hlook
+    cases hlook
+    exact (pull_success_complete_fixed cfg hash n reg sc st st' log hearly hb h).1 l hl
+  · rw [hman, lookupM_insertM_other _ _ _ _ e] at hlook
+    obtain ⟨d, c, hd, hc, hh⟩ := hn n m hlook l hl
+    exact ⟨d, c, hd, pull_ok_keeps_named h n m e hlook l hl d c hd hc, hh⟩
+
+/-- **At no point of any history does a name resolve to a manifest with a missing or corrupt layer, and no blob
+    ever fails to hash to its name** (current tree = `verifyEarly`): for every list of pull attempts — any names, any
+    registries (the tag may be re-published between attempts), any fault scripts, any outcomes (success, error,
+    crash), any length — starting from a store that satisfies both invariants, the store after EVERY attempt
+    satisfies both. -/
+theorem history_every_state_intact (cfg : Cfg) (hash : Bytes → Digest) (hearly : cfg.verifyEarly = true)
+    (steps : List HStep) : ∀ st, BlobInv hash st → NameInv hash st →
+      ∀ r ∈ runHistory cfg hash steps st, BlobInv hash r.2.1 ∧ NameInv hash r.2.1 := by
+  induction steps with
+  | nil => intro st _ _ r hr; simp [runHistory] at hr
+  | cons s rest ih =>
+    intro st hb hn r hr
+    simp only [runHistory] at hr
+    generalize hp : pull cfg hash s.name s.reg s.sc st = r0 at hr
+    obtain ⟨o, st', log⟩ := r0
+    have hb' : BlobInv hash st' := pull_fail_preserves cfg hash s.name s.reg s.sc st st' o log hearly hb hp
+    have hn' : NameInv hash st' := by
+      by_cases ho : o = .ok ()
+      · subst ho
+        exact pull_success_preserves_names cfg hash s.name s.reg s.sc st st' log hearly hb hn hp
+      · exact pull_fail_preserves_names cfg hash s.name s.reg s.sc st st' o log (Or.inr hearly) ho hn hp
+    rcases List.mem_cons.1 hr with e | hin
+    · subst e; exact ⟨hb', hn'⟩
+    · exact ih st' hb' hn' r hin
+
+/-- … in particular the store a history ends in -/
+theorem history_inv (cfg : Cfg) (hash : Bytes → Digest) (hearly : cfg.verifyEarly = true)
+    (steps : List HStep) : ∀ st, BlobInv hash st → NameInv hash st →
+      BlobInv hash (finalStore cfg hash steps st) ∧ NameInv hash (finalStore cfg hash steps st) := by
+  induction steps with
+  | nil => intro st hb hn; exact ⟨hb, hn⟩
+  | cons s rest ih =>
+    intro st hb hn
+    simp only [finalStore]
+    generalize hp : pull cfg hash s.name s.reg s.sc st = r0
+    obtain ⟨o, st', log⟩ := r0
+    have h1 := history_every_state_intact cfg hash hearly [s] st hb hn (o, st', log) (by simp [runHistory, hp])
+    exact ih st' h1.1 h1.2
+
+/-- what a name resolves to after a history, read off the steps and their outcomes alone: the manifest served in the
+    LAST SUCCESSFUL pull of that name (what it resolved to before the history if there was none) -/
+def resolved (n : Name) : List (HStep × Outcome) → Option MFile → Option MFile
+  | [], cur => cur
+  | (s, o) :: rest, cur =>
+    resolved n rest (if o = .ok () ∧ s.name = n then some (.readable s.reg.manifest) else cur)
+
+/-- **After any history every name resolves to exactly the manifest the registry served in the last successful pull
+    of that name** (all variants, every store, every script): a failed or interrupted attempt never changes what a
+    name resolves to, a successful one installs what was served in THAT attempt — also when an earlier version with
+    the same layers, another config, other media types or sizes is already installed (re-published tag). -/
+theorem history_resolves (cfg : Cfg) (hash : Bytes → Digest) (n : Name) (steps : List HStep) : ∀ st,
+    lookupM n (finalStore cfg hash steps st).manifests =
+      resolved n (steps.zip ((runHistory cfg hash steps st).map (·.1))) (lookupM n st.manifests) := by
+  induction steps with
+  | nil => intro st; rfl
+  | cons s rest ih =>
+    intro st
+    simp only [finalStore, runHistory, List.map_cons, List.zip_cons_cons, resolved]
+    rw [ih]
+    congr 1
+    generalize hp : pull cfg hash s.name s.reg s.sc st = r0
+    obtain ⟨o, st', log⟩ := r0
+    have hman := pull_manifests hp
+    show lookupM n st'.manifests = _
+    rw [hman]
+    by_cases ho : o = .ok ()
+    · by_cases hn : s.name = n
+      · subst hn; simp [ho, lookupM_insertM]
+      · simp [ho, hn, lookupM_insertM_other _ _ _ _ (Ne.symm hn)]
+    · simp [ho]
+
+/-- the re-published tag, concretely (toy hash): v1 = layers A, B; v2 = the same layers with a new config; v3 = the same
+    digests, layer A under another media type and B's size corrected.  Pull v1, then v2 under a failing manifest
+    request (nothing changes), then v2, then v3: the name resolves to v1, v1, v2, v3 in turn; every attempt but the
+    second succeeds; a name sharing layer A stays intact throughout. -/
+def cC : Bytes := [3, 30]
+def dC : Digest := [3]
+def regV1 : Registry := ⟨⟨[⟨.ok dA, 2, 0⟩, ⟨.ok dB, 5, 0⟩], ⟨.empty, 0, 0⟩⟩, [(dA, cA), (dB, cB), (dC, cC)], [0]⟩
+def regV2 : Registry := { regV1 with manifest := ⟨[⟨.ok dA, 2, 0⟩, ⟨.ok dB, 5, 0⟩], ⟨.ok dC, 2, 0⟩⟩ }
+def regV3 : Registry := { regV1 with manifest := ⟨[⟨.ok dA, 2, 4⟩, ⟨.ok dB, 2, 0⟩], ⟨.ok dC, 2, 0⟩⟩ }
+def regShare : Registry := { regV1 with manifest := ⟨[⟨.ok dA, 2, 0⟩], ⟨.empty, 0, 0⟩⟩ }
+def republishSteps : List HStep :=
+  [⟨1, regShare, Scripts.honest⟩, ⟨0, regV1, Scripts.honest⟩, ⟨0, regV2, ⟨[.status], [], [], none⟩⟩,
+   ⟨0, regV2, Scripts.honest⟩, ⟨0, regV3, Scripts.honest⟩]
+
+theorem republished_tag_installs_each_version :
+    (runHistory cfgF toyHash republishSteps st0).map (·.1) = [.ok (), .ok (), .err .manifest, .ok (), .ok ()] ∧
+    (runHistory cfgF toyHash republishSteps st0).map (fun r => lookupM 0 r.2.1.manifests) =
+      [none, some (.readable regV1.manifest), some (.readable regV1.manifest),
+       some (.readable regV2.manifest), some (.readable regV3.manifest)] ∧
+    regV2.manifest.layers = regV1.manifest.layers ∧ regV2.manifest ≠ regV1.manifest ∧
+    regV3.manifest.layers.map (·.digest) = regV2.manifest.layers.map (·.digest) ∧
+    lookupM 1 (finalStore cfgF toyHash republishSteps st0).manifests = some (.readable regShare.manifest) ∧
+    (finalStore cfgF toyHash republishSteps st0).blobs dA = some cA := by decide
+
+/-- non-vacuity of the history theorems: `st0` satisfies both invariants, `cfgF` is the repaired variant, and the
+    history above mixes names, versions, a failure and successes -/
+example : cfgF.verifyEarly = true ∧ republishSteps.length = 5 ∧
+    resolved 0 (republishSteps.zip ((runHistory cfgF toyHash republishSteps st0).map (·.1))) none =
+      some (.readable regV3.manifest) := by decide
+
 end OllamaVerif.C03
